@@ -12,7 +12,8 @@
 //! node, are compared with the rows the node produced (all partitions resp. partition `i`): every
 //! `Precision::Exact` among `num_rows`, per-column `null_count`, `min_value`, `max_value`, `sum_value`,
 //! `distinct_count` must equal the value computed from the output — min/max over the non-NULL values in the
-//! column's natural order (an exact min/max over no values must be NULL), sums exactly for integers (i128) and
+//! column's natural order (over rows that are all NULL an exact min/max must be NULL; on an EMPTY output only
+//! `num_rows` and `null_count` are judged, as the engine's own consumers test the row count first), sums exactly for integers (i128) and
 //! to 1e-9 relative for floats, distinct counts as the number of distinct non-NULL values (a count that also
 //! counts NULL as one value is accepted). `total_byte_size` / `byte_size` are not judged. Columns holding NaN
 //! are not judged for min/max. A statistics call that fails is labelled, not judged.
@@ -27,7 +28,6 @@
 //!
 //! Sensitivity probes: see the end of this header.
 use datafusion::arrow::array::{Array, ArrayRef, RecordBatch, make_comparator};
-use datafusion::arrow::datatypes::DataType;
 use datafusion::arrow::compute::SortOptions;
 use datafusion::common::stats::Precision;
 use datafusion::common::{ScalarValue, Statistics};
@@ -47,7 +47,7 @@ use vf_kit::engine::*;
 use vf_kit::refsql::{self, Table, Ty, Value};
 
 use crate::c30::fail_result;
-use crate::walk::{self, Declared, Program, Purpose, SourceDecl, Walk, WalkCase, WalkFail, WalkNode, canon, has_nan, row_keys};
+use crate::walk::{self, Declared, Finding, Judged, Program, Purpose, SourceDecl, Walk, WalkCase, WalkFail, WalkNode, canon, has_nan, row_keys};
 
 pub struct C29;
 
@@ -227,6 +227,13 @@ fn check_stats(st: &Statistics, rows: &RecordBatch, at: &str, leaf: bool, f: &mu
             }
             exact_here += 1;
         }
+        if rows.num_rows() == 0 {
+            // consumers of min/max/sum/distinct look at num_rows first (an empty relation has no extremes): only the counts are judged
+            if cs.min_value.is_exact().unwrap_or(false) || cs.max_value.is_exact().unwrap_or(false) || cs.sum_value.is_exact().unwrap_or(false) || cs.distinct_count.is_exact().unwrap_or(false) {
+                f.label("skip:value-statistics-on-empty-output");
+            }
+            continue;
+        }
         for (which, p, want_max) in [("min_value", &cs.min_value, false), ("max_value", &cs.max_value, true)] {
             let Precision::Exact(v) = p else { continue };
             f.label(format!("exact:{which}"));
@@ -325,8 +332,17 @@ fn check_stats(st: &Statistics, rows: &RecordBatch, at: &str, leaf: bool, f: &mu
     Ok(())
 }
 
-pub fn check_node(n: &WalkNode, f: &mut Facts) -> Result<(), String> {
-    let Ok(parts) = &n.parts else { return Ok(()) };
+#[derive(Clone, Copy, Debug, PartialEq, Eq)]
+pub enum Scope {
+    Whole,
+    Partition,
+    Registry,
+}
+
+/// violated statistics of one node: at most one per statistics call kind
+pub fn check_node(n: &WalkNode, f: &mut Facts) -> Vec<(Scope, String)> {
+    let mut out = vec![];
+    let Ok(parts) = &n.parts else { return out };
     let schema = n.plan.schema();
     let leaf = n.plan.children().is_empty();
     let mut per_part = vec![];
@@ -335,7 +351,7 @@ pub fn check_node(n: &WalkNode, f: &mut Facts) -> Result<(), String> {
             Ok(b) => per_part.push(b),
             Err(_) => {
                 f.label("skip:concat-failed");
-                return Ok(());
+                return out;
             }
         }
     }
@@ -343,26 +359,66 @@ pub fn check_node(n: &WalkNode, f: &mut Facts) -> Result<(), String> {
         Ok(b) => b,
         Err(_) => {
             f.label("skip:concat-failed");
-            return Ok(());
+            return out;
         }
     };
     let sctx = StatisticsContext::new();
     match sctx.compute(n.plan.as_ref(), &StatisticsArgs::new()) {
-        Ok(st) => check_stats(&st, &all, &format!("node [{}] {} — statistics of the whole node", n.path, n.display), leaf, f)?,
+        Ok(st) => {
+            if let Err(m) = check_stats(&st, &all, &format!("node [{}] {} — statistics of the whole node", n.path, n.display), leaf, f) {
+                out.push((Scope::Whole, m));
+            }
+        }
         Err(_) => f.label(format!("skip:statistics-error@{}", n.name)),
     }
     for (pi, b) in per_part.iter().enumerate() {
         let sctx = StatisticsContext::new();
         match sctx.compute(n.plan.as_ref(), &StatisticsArgs::new().with_partition(Some(pi))) {
-            Ok(st) => check_stats(&st, b, &format!("node [{}] {} — statistics of partition {pi} of {}", n.path, n.display, per_part.len()), leaf, f)?,
+            Ok(st) => {
+                if let Err(m) = check_stats(&st, b, &format!("node [{}] {} — statistics of partition {pi} of {}", n.path, n.display, per_part.len()), leaf, f) {
+                    out.push((Scope::Partition, m));
+                    break;
+                }
+            }
             Err(_) => f.label(format!("skip:partition-statistics-error@{}", n.name)),
         }
     }
     match StatisticsRegistry::default_with_builtin_providers().compute(n.plan.as_ref()) {
-        Ok(st) => check_stats(st.base(), &all, &format!("node [{}] {} — statistics from the registry's built-in providers", n.path, n.display), leaf, f)?,
+        Ok(st) => {
+            if let Err(m) = check_stats(st.base(), &all, &format!("node [{}] {} — statistics from the registry's built-in providers", n.path, n.display), leaf, f) {
+                out.push((Scope::Registry, m));
+            }
+        }
         Err(_) => f.label(format!("skip:registry-statistics-error@{}", n.name)),
     }
-    Ok(())
+    out
+}
+
+/// classify a violated statistic against the open known findings
+fn classify(n: &WalkNode, scope: Scope, msg: &str, stealing: bool) -> Option<String> {
+    let column_stat = msg.contains(": column ");
+    let is_join = |p: &Arc<dyn datafusion::physical_plan::ExecutionPlan>| p.name().contains("Join");
+    let parquet_with_predicate = |p: &Arc<dyn datafusion::physical_plan::ExecutionPlan>| {
+        let d = walk::one_line_full(p.as_ref());
+        p.name() == "DataSourceExec" && d.contains("file_type=parquet") && d.contains("predicate=")
+    };
+    let parquet_multi_group = |p: &Arc<dyn datafusion::physical_plan::ExecutionPlan>| {
+        let d = walk::one_line_full(p.as_ref());
+        p.name() == "DataSourceExec" && d.contains("file_type=parquet") && !d.contains("file_groups={1 group")
+    };
+    if scope == Scope::Partition && walk::subtree_has(&n.plan, &parquet_with_predicate) {
+        // known finding: per-partition statistics of a file scan ignore its predicate
+        return Some("file-scan-partition-statistics-ignore-predicate".into());
+    }
+    if scope == Scope::Partition && stealing && walk::subtree_has(&n.plan, &parquet_multi_group) {
+        // known finding: per-partition statistics of a file scan stay Exact although sibling partitions share the files
+        return Some("file-scan-partition-statistics-under-work-stealing".into());
+    }
+    if column_stat && walk::subtree_has(&n.plan, &is_join) {
+        // known finding: joins hand their inputs' column statistics on unchanged (Exact included)
+        return Some("join-output-keeps-exact-column-statistics".into());
+    }
+    None
 }
 
 // ---------------------------------------------------------------------------------------------
@@ -530,9 +586,12 @@ impl Property for C29 {
         "c29"
     }
     fn strategy(&self, tier: Tier) -> BoxedStrategy<Case> {
-        (walk::case_strategy(tier, Purpose::Stats, 3, 2), prop::collection::vec(backing_strategy(), 3), prop_oneof![3 => Just(true), 1 => Just(false)])
-            .prop_map(|(mut base, backing, collect)| {
+        (walk::case_strategy(tier, Purpose::Stats, 3, 2), prop::collection::vec(backing_strategy(), 3), prop_oneof![3 => Just(true), 1 => Just(false)], prop_oneof![1 => Just(true), 4 => Just(false)])
+            .prop_map(|(mut base, backing, collect, stealing)| {
                 base.variant.options.push(("datafusion.execution.collect_statistics".to_string(), collect.to_string()));
+                if !stealing {
+                    base.variant.options.push(("datafusion.execution.enable_file_stream_work_stealing".to_string(), "false".to_string()));
+                }
                 Case { base, backing }
             })
             .boxed()
@@ -554,39 +613,55 @@ impl Property for C29 {
             "arrow-ord comparators define the natural order used for min/max; float sums are compared to 1e-9 relative".into(),
         ]
     }
-    fn run(&self, case: &Case) -> CaseResult {
-        let (w, e2e) = match run_case(case) {
-            Ok(x) => x,
-            Err(e) => return fail_result(e),
-        };
-        let mut labels = walk::plan_labels(&case.base, &w);
-        for b in &case.backing {
-            labels.push(match b {
-                Backing::Mem => "backing:mem".to_string(),
-                Backing::Parquet { stats, .. } => format!("backing:parquet-stats{stats}"),
-            });
-        }
-        labels.sort();
-        labels.dedup();
-        let describe = || format!("{}\n  backing: {:?}\n  plan:\n{}", case.base.describe(), case.backing, w.plan_text);
-        let e2e = match e2e {
-            Ok(e) => e,
-            Err(m) => return CaseResult::violation(format!("{m}{}", describe())).labels(labels),
-        };
-        let mut f = Facts::default();
-        for n in &w.nodes {
-            if let Err(m) = check_node(n, &mut f) {
-                return CaseResult::violation(format!("{m}{}", describe())).labels(labels).labels(f.labels);
-            }
-        }
-        let nt = f.nonleaf_exact > 0 || e2e.rewritten_nonempty > 0;
-        let mut r = CaseResult::pass().nontrivial(nt).labels(labels).labels(f.labels).labels(e2e.labels);
-        if f.nonleaf_exact > 0 {
-            r = r.label("nonleaf-exact-statistic");
-        }
-        if let Program::Tmpl(t) = &case.base.program {
-            r = r.labels(t.features());
-        }
-        r
+    fn known_signature(&self, case: &Case) -> Option<String> {
+        walk::judged_signature("c29", case, || judge(case))
     }
+    fn run(&self, case: &Case) -> CaseResult {
+        walk::judged_result("c29", case, || judge(case))
+    }
+}
+
+fn judge(case: &Case) -> Judged {
+    let (w, e2e) = match run_case(case) {
+        Ok(x) => x,
+        Err(e) => return Judged::clean(fail_result(e)),
+    };
+    walk::dump(&w);
+    let mut labels = walk::plan_labels(&case.base, &w);
+    for b in &case.backing {
+        labels.push(match b {
+            Backing::Mem => "backing:mem".to_string(),
+            Backing::Parquet { stats, .. } => format!("backing:parquet-stats{stats}"),
+        });
+    }
+    let stealing = !case.base.variant.options.iter().any(|(k, v)| k.ends_with("enable_file_stream_work_stealing") && v == "false");
+    labels.push(if stealing { "work-stealing:on".to_string() } else { "work-stealing:off".to_string() });
+    labels.sort();
+    labels.dedup();
+    let describe = || format!("{}\n  backing: {:?}\n  plan:\n{}", case.base.describe(), case.backing, w.plan_text);
+    let mut findings = vec![];
+    let mut e2e_labels = vec![];
+    let mut rewritten = 0;
+    match e2e {
+        Ok(e) => {
+            e2e_labels = e.labels;
+            rewritten = e.rewritten_nonempty;
+        }
+        Err(m) => findings.push(Finding { sig: None, msg: format!("{m}{}", describe()) }),
+    }
+    let mut f = Facts::default();
+    for n in &w.nodes {
+        for (scope, m) in check_node(n, &mut f) {
+            findings.push(Finding { sig: classify(n, scope, &m, stealing), msg: format!("{m}{}", describe()) });
+        }
+    }
+    let nt = f.nonleaf_exact > 0 || rewritten > 0;
+    let mut r = CaseResult::pass().nontrivial(nt).labels(labels).labels(f.labels).labels(e2e_labels);
+    if f.nonleaf_exact > 0 {
+        r = r.label("nonleaf-exact-statistic");
+    }
+    if let Program::Tmpl(t) = &case.base.program {
+        r = r.labels(t.features());
+    }
+    Judged { findings, result: r }
 }
